@@ -99,9 +99,10 @@ pub fn run(ctx: &Ctx) -> i32 {
         },
         &mut jobs,
     );
+    rs::rs_syndrome_prefix(ctx.tier, &mut jobs);
     rs::run_jobs(ctx, &jobs, |job, orig, recv, info, w| {
         let si = match job {
-            Job::Single { si, .. } | Job::Subsets { si, .. } | Job::Burst { si, .. } | Job::Spread { si, .. } | Job::AllBlocks { si, .. } => *si,
+            Job::Single { si, .. } | Job::Subsets { si, .. } | Job::Burst { si, .. } | Job::Spread { si, .. } | Job::AllBlocks { si, .. } | Job::SyndromePrefix { si, .. } => *si,
             _ => return,
         };
         if info.max_block_weight > SYMBOLS[si].t() {
@@ -129,9 +130,9 @@ pub fn run(ctx: &Ctx) -> i32 {
         "distinct_nontrivial": ctx.counter("nontrivial"),
         "rule": format!("fault patterns of weight <= floor(k/2) per interleaved block on reference codewords (zero data, LCG data) of all 48 sizes: RS-1 every position x error values ({}); \
 RS-2 bursts at every in-block offset (data region, EC region, across the boundary), spread patterns and all blocks damaged at once for weights 2, t/2, t-1, t; for the six sizes with <= 24 codewords all \
-position subsets of size 2..min(t,3) x 8 values and of size t x 2 values (quick: not for the two largest of them beyond size 4); plus damage through flipped modules of the rendered symbol \
+position subsets of size 2..min(t,3) x 8 values and of size t x 2 values (quick: not for the two largest of them beyond size 4); RS-S syndrome-prefix family: for weights w = 2..min(t,5|6) and four position sets per block (start of data, across the data/EC boundary, spread, end of EC) the error values that realise every syndrome prefix (S_1..S_w) over {{0}} and powers of 2 (8^w for w <= 4) - this drives the decoder through its singular cases (leading zero syndromes, geometric syndrome sequences) inside the guaranteed region; plus damage through flipped modules of the rendered symbol \
 (t codewords of each block at three offsets, 1-8 modules each, module positions from R3/R4). Patterns are distinct by construction, all non-trivial. Oracle: Ok and exact restoration.",
-            if ctx.tier == Tier::Thorough { "all 255" } else { "1, 0x80, 0xFF everywhere; all 255 at the first/last data and EC codeword of every block" }),
+            if ctx.tier == Tier::Thorough { "all 255" } else { "1, 0x80, 0xFF everywhere; all 255 at every position of the sizes with <= 300 codewords and at the first/last data and EC codeword of every block of the larger ones" }),
         "exhaustive": true,
         "max_errors_per_block": ctx.maximum("errors_per_block"),
         "sizes_covered": ctx.distinct("sizes"),
